@@ -2,7 +2,7 @@
 
 use futures_core::Stream;
 
-use super::core::{AsyncWaiter, STATE_CANCELLED, STATE_WAITING};
+use super::core::{AsyncWaiter, STATE_CANCELLED, STATE_SUCCESS_SPACE, STATE_WAITING};
 use super::{AsyncReceiver, AsyncSender};
 use crate::error::{BatchSendErrorReason, SendBatchError, SendError, TrySendError};
 use crate::RecvError;
@@ -43,15 +43,26 @@ impl<'a, T: Send> SendFuture<'a, T> {
 impl<T: Send> Drop for SendFuture<'_, T> {
   fn drop(&mut self) {
     if self.is_registered {
-      let _ = self.state.compare_exchange(
+      // A future that was already granted space but is dropped before using it
+      // must not swallow that wake: hand it to the next parked sender.
+      let was_woken = self.state.compare_exchange(
         STATE_WAITING,
         STATE_CANCELLED,
         Ordering::SeqCst,
         Ordering::SeqCst,
-      );
+      ) == Err(STATE_SUCCESS_SPACE);
       let mut guard = self.sender.shared.internal.lock();
       let state_ptr = &self.state as *const AtomicU8;
       guard.waiting_async_senders.retain(|w| w.state != state_ptr);
+      let pass_on = if was_woken {
+        guard.pass_wake_to_sender(self.sender.shared.capacity)
+      } else {
+        None
+      };
+      drop(guard);
+      if let Some(w) = pass_on {
+        w.wake();
+      }
     }
   }
 }
@@ -196,15 +207,26 @@ impl<'a, T: Send> SendBatchFuture<'a, T> {
 impl<T: Send> Drop for SendBatchFuture<'_, T> {
   fn drop(&mut self) {
     if self.is_registered {
-      let _ = self.state.compare_exchange(
+      // A future that was already granted space but is dropped before using it
+      // must not swallow that wake: hand it to the next parked sender.
+      let was_woken = self.state.compare_exchange(
         STATE_WAITING,
         STATE_CANCELLED,
         Ordering::SeqCst,
         Ordering::SeqCst,
-      );
+      ) == Err(STATE_SUCCESS_SPACE);
       let mut guard = self.sender.shared.internal.lock();
       let state_ptr = &self.state as *const AtomicU8;
       guard.waiting_async_senders.retain(|w| w.state != state_ptr);
+      let pass_on = if was_woken {
+        guard.pass_wake_to_sender(self.sender.shared.capacity)
+      } else {
+        None
+      };
+      drop(guard);
+      if let Some(w) = pass_on {
+        w.wake();
+      }
     }
   }
 }
@@ -397,15 +419,26 @@ impl<'a, T: Send> SendBatchMutFuture<'a, T> {
 impl<T: Send> Drop for SendBatchMutFuture<'_, T> {
   fn drop(&mut self) {
     if self.is_registered {
-      let _ = self.state.compare_exchange(
+      // A future that was already granted space but is dropped before using it
+      // must not swallow that wake: hand it to the next parked sender.
+      let was_woken = self.state.compare_exchange(
         STATE_WAITING,
         STATE_CANCELLED,
         Ordering::SeqCst,
         Ordering::SeqCst,
-      );
+      ) == Err(STATE_SUCCESS_SPACE);
       let mut guard = self.sender.shared.internal.lock();
       let state_ptr = &self.state as *const AtomicU8;
       guard.waiting_async_senders.retain(|w| w.state != state_ptr);
+      let pass_on = if was_woken {
+        guard.pass_wake_to_sender(self.sender.shared.capacity)
+      } else {
+        None
+      };
+      drop(guard);
+      if let Some(w) = pass_on {
+        w.wake();
+      }
     }
     if let Some(item) = self.pending.take() {
       self.items.insert(0, item);
@@ -626,17 +659,29 @@ impl<'a, T: Send> Future for RecvBatchFuture<'a, T> {
 impl<T: Send> Drop for RecvBatchFuture<'_, T> {
   fn drop(&mut self) {
     if self.is_registered {
-      let _ = self.state.compare_exchange(
+      // A future that was already woken for an item but is dropped before
+      // taking it must not swallow that wake: hand it to the next parked receiver.
+      let was_woken = self.state.compare_exchange(
         STATE_WAITING,
         STATE_CANCELLED,
         Ordering::SeqCst,
         Ordering::SeqCst,
-      );
+      ) == Err(STATE_SUCCESS_SPACE);
+      // Eagerly unlink the waiter so the future's memory can be safely freed.
       let mut guard = self.receiver.shared.internal.lock();
       let state_ptr = &self.state as *const AtomicU8;
       guard
         .waiting_async_receivers
         .retain(|w| w.state != state_ptr);
+      let pass_on = if was_woken {
+        guard.pass_wake_to_receiver()
+      } else {
+        None
+      };
+      drop(guard);
+      if let Some(w) = pass_on {
+        w.wake();
+      }
     }
   }
 }
@@ -716,17 +761,29 @@ impl<'a, T: Send> Future for RecvBatchMutFuture<'a, T> {
 impl<T: Send> Drop for RecvBatchMutFuture<'_, T> {
   fn drop(&mut self) {
     if self.is_registered {
-      let _ = self.state.compare_exchange(
+      // A future that was already woken for an item but is dropped before
+      // taking it must not swallow that wake: hand it to the next parked receiver.
+      let was_woken = self.state.compare_exchange(
         STATE_WAITING,
         STATE_CANCELLED,
         Ordering::SeqCst,
         Ordering::SeqCst,
-      );
+      ) == Err(STATE_SUCCESS_SPACE);
+      // Eagerly unlink the waiter so the future's memory can be safely freed.
       let mut guard = self.receiver.shared.internal.lock();
       let state_ptr = &self.state as *const AtomicU8;
       guard
         .waiting_async_receivers
         .retain(|w| w.state != state_ptr);
+      let pass_on = if was_woken {
+        guard.pass_wake_to_receiver()
+      } else {
+        None
+      };
+      drop(guard);
+      if let Some(w) = pass_on {
+        w.wake();
+      }
     }
   }
 }
@@ -798,18 +855,29 @@ impl<'a, T: Send> Future for RecvFuture<'a, T> {
 impl<T: Send> Drop for RecvFuture<'_, T> {
   fn drop(&mut self) {
     if self.is_registered {
-      let _ = self.state.compare_exchange(
+      // A future that was already woken for an item but is dropped before
+      // taking it must not swallow that wake: hand it to the next parked receiver.
+      let was_woken = self.state.compare_exchange(
         STATE_WAITING,
         STATE_CANCELLED,
         Ordering::SeqCst,
         Ordering::SeqCst,
-      );
+      ) == Err(STATE_SUCCESS_SPACE);
       // Eagerly unlink the waiter so the future's memory can be safely freed.
       let mut guard = self.receiver.shared.internal.lock();
       let state_ptr = &self.state as *const AtomicU8;
       guard
         .waiting_async_receivers
         .retain(|w| w.state != state_ptr);
+      let pass_on = if was_woken {
+        guard.pass_wake_to_receiver()
+      } else {
+        None
+      };
+      drop(guard);
+      if let Some(w) = pass_on {
+        w.wake();
+      }
     }
   }
 }
